@@ -85,7 +85,7 @@ def run(ctx):
         bs = [x for x in bs if x['steps'] and x['steps'][-1].get('op') in ('Pack', 'Expire')]
         ctx.replay(b, bs, opts=dict(salt=10 + sd), par=4, timeout=T)
     # 4. real block-sized transactions (no padding: one unit is ~0.5 MB) on a sample
-    big = [x for i, x in enumerate(rows) if i % (97 if q else 11) == 0]
+    big = rows[::max(1, len(rows) // (30 if q else 300))]
     ctx.replay(b, big, opts=dict(unit='big', salt=20), par=2, timeout=T, count=False)
     # 5. code -> spec: recorded random rows validated by the trace specification
     ctx.validate_recording(b, 'Pack_Trace', 'Pack_Trace.cfg', recorder='rows', opts=dict(n=60 if q else 600),
